@@ -9,6 +9,7 @@
 package main
 
 import (
+	"sort"
 	"bytes"
 	"fmt"
 	"io"
@@ -53,14 +54,106 @@ func installPool() {
 // victim slots are all empty) and New produces poisoned buffers.
 func poisonPool(seed int) {
 	poisonSeed = seed
+	var held []*[packet.EthMaxSize]byte
 	for i := 0; i < 10000; i++ {
 		newCalled = false
-		packet.EtherBufferPool.Get()
+		b := packet.EtherBufferPool.Get().(*[packet.EthMaxSize]byte)
 		if newCalled {
+			if keepPool {
+				seen := map[*[packet.EthMaxSize]byte]bool{}
+				for j := len(held) - 1; j >= 0; j-- {
+					if seen[held[j]] {
+						poolDup++
+					}
+					seen[held[j]] = true
+					fillPoison(held[j], seed)
+					packet.EtherBufferPool.Put(held[j])
+				}
+			}
 			return
 		}
+		held = append(held, b)
 	}
 	panic("pool does not drain")
+}
+
+// Sequence mode (state carried between sends through the shared pool): with keepPool set, poisonPool does not
+// empty the pool; the buffers it holds are refilled with the pattern and put back, a buffer the pool holds twice
+// (a double Put) stays in it twice and is counted in poolDup.  Single goroutine, GOMAXPROCS(1), no GC reliance:
+// what a send leaves in the pool is what the next send of the sequence gets.
+var (
+	keepPool bool
+	poolDup  int
+)
+
+// seqKinds: the case kinds a sequence is made of (runners that poison through poisonPool right before the
+// send, deterministic arguments; the last argument is the poison seed except for the two name queries).
+var seqKinds = map[string]bool{"echo4": true, "echo6": true, "ns": true, "na": true, "rs": true, "ra": true, "arpraw": true,
+	"arpreply": true, "arpreq": true, "arpprobe": true, "arpreqto": true, "arpannounce": true, "ssdp": true, "mdnsq": true, "llmnrq": true,
+	"discover": true, "nbnsq": true} // the last two: refused calls only
+
+var seqRefused, seqSent = map[string][][]string{}, map[string][][]string{}
+
+// noteCase remembers compared cases as material for the sequences (at most 40 per kind and outcome).
+func noteCase(kind string, all []string, obs string) {
+	if !seqKinds[kind] || obs == "panic" {
+		return
+	}
+	m, class := seqSent, kind
+	if obs == "none" {
+		m = seqRefused
+		if kind == "ra" && strings.Count(all[len(all)-2], ";") >= 44 {
+			class = "ra-that-does-not-fit" // the error path inside icmp6SendPacket (buffer already taken)
+		}
+	}
+	if len(m[class]) < 40 {
+		m[class] = append(m[class], append([]string{kind}, all...))
+	}
+}
+
+// runSeq: the steps (full case lines) one after the other on the same pool, starting from an empty one.  After
+// every step the pool is inspected (a buffer held twice -> "+pool-holds-a-buffer-twice"); afterwards every
+// step is run again on its own from an empty pool with another pattern: the frame must be the same
+// ("+differs-from-a-fresh-pool" otherwise).  The model answers each step independently.
+func runSeq(r *lib.Run, a []string) string {
+	var steps [][]string
+	cur := []string{}
+	for _, t := range a {
+		if t == "|" {
+			steps = append(steps, cur)
+			cur = []string{}
+		} else {
+			cur = append(cur, t)
+		}
+	}
+	steps = append(steps, cur)
+	keepPool = false
+	poisonPool(0)
+	keepPool, poolDup = true, 0
+	defer func() { keepPool = false }()
+	obs := make([]string, len(steps))
+	for i, st := range steps {
+		if len(st) == 0 || !seqKinds[st[0]] {
+			return "bad-sequence"
+		}
+		obs[i] = r.Exec(st[0], st[1:])
+		poisonPool(0)
+		if poolDup > 0 {
+			obs[i] += "+pool-holds-a-buffer-twice"
+			poolDup = 0
+		}
+	}
+	keepPool = false
+	for i, st := range steps {
+		b := append([]string{}, st[1:]...)
+		if st[0] != "mdnsq" && st[0] != "llmnrq" {
+			b[len(b)-1] = strconv.Itoa((atoi(b[len(b)-1]) + 101) % 256)
+		}
+		if o := r.Exec(st[0], b); o != strings.TrimSuffix(obs[i], "+pool-holds-a-buffer-twice") {
+			obs[i] += "+differs-from-a-fresh-pool"
+		}
+	}
+	return strings.Join(obs, ";")
 }
 
 // ---------------------------------------------------------------- configuration / tokens
@@ -312,6 +405,8 @@ func main() {
 	})
 	registerPaths(r)
 	r.Register("sites", func(a []string) string { return strings.Join(censusSites(r), ",") })
+	r.Register("seq", func(a []string) string { return runSeq(r, a) })
+	r.Register("pool", func(a []string) string { return strings.Join(poolCensus(r), ",") })
 	r.Register("reach", func(a []string) string { an, _ := reachCensus(r); return strings.Join(an, ",") })
 	if r.Replayed() {
 		return
@@ -339,6 +434,7 @@ func main() {
 		all := append(c.toks(), args...)
 		obs := r.Do(kind, all...)
 		oracle(r, kind, c, args, obs)
+		noteCase(kind, all, obs)
 		r.Stat("class."+kind, 1)
 	}
 	n := 1500
@@ -376,6 +472,40 @@ func main() {
 		}
 	}
 	generatePaths(r, g, do)
+	// sequences: a refused send (every refusal class in turn), then ordinary sends, on the same pool
+	nseq := 120
+	if r.Thorough() {
+		nseq = 4000
+	}
+	keysOf := func(m map[string][][]string) []string {
+		ks := []string{}
+		for k := range m {
+			ks = append(ks, k)
+		}
+		sort.Strings(ks)
+		return ks
+	}
+	kr, ks := keysOf(seqRefused), keysOf(seqSent)
+	for i := 0; i < nseq && len(kr) > 0 && len(ks) > 0; i++ {
+		pick := func(m map[string][][]string, k string) []string { return m[k][rng.Intn(len(m[k]))] }
+		steps := [][]string{pick(seqSent, ks[rng.Intn(len(ks))]), pick(seqRefused, kr[i%len(kr)])}
+		for j := 2 + rng.Intn(3); j > 0; j-- {
+			steps = append(steps, pick(seqSent, ks[rng.Intn(len(ks))]))
+		}
+		if rng.Chance(40) {
+			steps = append(steps, pick(seqRefused, kr[rng.Intn(len(kr))]), pick(seqSent, ks[rng.Intn(len(ks))]))
+		}
+		toks := []string{}
+		for j, st := range steps {
+			if j > 0 {
+				toks = append(toks, "|")
+			}
+			toks = append(toks, st...)
+		}
+		r.Do("seq", toks...)
+		r.Stat("class.seq", 1)
+		r.Stat("class.seq.after-refused-"+kr[i%len(kr)], 1)
+	}
 	carryBoundary(r, g, do)
 	r.Sample("purgearp 005555555555 c0a80081 fe800000000000000000000000010129 006666666666 c0a8000b 1500 c0a80005 7 => ffffffff0604... (destination MAC bytes 4,5 overwritten by hlen/plen; arp hlen/plen stale)")
 }
